@@ -1244,6 +1244,10 @@ where
     }
 
     fn visit_mut_stmts(&mut self, stmts: &mut Vec<Stmt>) {
+        // temporaries created before this statement list belong to an enclosing scope
+        let outer_consts = mem::take(&mut self.injecting_consts);
+        let outer_vars = mem::take(&mut self.injecting_vars);
+
         stmts.visit_mut_children_with(self);
 
         if !self.injecting_consts.is_empty() {
@@ -1270,10 +1274,21 @@ where
             );
             self.slot_counter = 1;
         }
+
+        self.injecting_consts = outer_consts;
+        self.injecting_vars = outer_vars;
     }
 
     fn visit_mut_arrow_expr(&mut self, arrow_expr: &mut ArrowExpr) {
-        arrow_expr.visit_mut_children_with(self);
+        // temporaries needed by parameter defaults can't be declared in the body:
+        // they are left to the enclosing scope, like the ones created before this arrow
+        arrow_expr.params.visit_mut_with(self);
+        let outer_consts = mem::take(&mut self.injecting_consts);
+        let outer_vars = mem::take(&mut self.injecting_vars);
+
+        arrow_expr.body.visit_mut_with(self);
+        arrow_expr.type_params.visit_mut_with(self);
+        arrow_expr.return_type.visit_mut_with(self);
 
         if !self.injecting_consts.is_empty() || !self.injecting_vars.is_empty() {
             if let BlockStmtOrExpr::Expr(ret) = &*arrow_expr.body {
@@ -1310,6 +1325,9 @@ where
                 }));
             }
         }
+
+        self.injecting_consts.splice(0..0, outer_consts);
+        self.injecting_vars.splice(0..0, outer_vars);
     }
 
     fn visit_mut_expr(&mut self, expr: &mut Expr) {
